@@ -25,6 +25,7 @@ CLAUSE_PROPERTY = {
     "PC_Order": None,
     "IF_Zero": "C05",
     "IF_EmptyHistory": None,
+    "IF_HistoryKept": None,   # documented behaviour beyond the listed properties (a fresh run() that started from an empty history would be a legitimate design too)
     "RW_Iter": None,
     "RW_FirstZero": "C05",
     "RW_Monotone": "C05",
@@ -390,8 +391,10 @@ class Recorder:
         self._prefix_digests = self._batch_digests(st)
         self._mark = self.evals
         it = st.get_current("iter")
+        prev_len = int(getattr(self, "_hist_len_seen", 0)) if getattr(self, "_hist_owner", None) is st else 0
         self._emit(
             "RunBegin",
+            prevHistLen=prev_len,
             resumed=bool(r["resumed"]),
             iter=int(it if it is not None else 0),
             beta=_R("beta", st.get_current("beta") or 0.0),
@@ -728,6 +731,7 @@ class Recorder:
                 return False
 
         scal_ok = all(len(H[k]) > 0 and _same(H[k][-1], cur.get(k)) for k in ("beta", "logz", "ess", "iter", "calls") if cur.get(k) is not None)
+        self._hist_len_seen, self._hist_owner = T, st
         self._emit("Commit", batch=batch, histLen=T, keyLens=[len(H[k]) for k in recorded], prefixSame=bool(prefix_same), blobsOK=bool(blobs_ok),
                    scalarsOK=bool(scal_ok))
 
